@@ -263,6 +263,42 @@ fn post_init<T: Transport>(d: &mut AnyDriver<T>, accepted: u64, v: &mut Vec<(Str
             }
             n.disable_interrupts();
             n.enable_interrupts();
+            // Receive side, with completions around the size of the header: whatever the used
+            // length, the header in front of the frame has the negotiated size.
+            for (round, total) in [want + 20, want + 1, want, 11, 10].into_iter().enumerate() {
+                let mut rb = vec![0u8; 2048].into_boxed_slice();
+                // SAFETY: the buffer lives until receive_complete below (or is leaked).
+                let tok = match unsafe { n.receive_begin(&mut rb) } {
+                    Ok(t) => t,
+                    Err(_) => break,
+                };
+                let frame: Vec<u8> = (0..total).map(|i| if i < want { 0 } else { 0x50 + i as u8 }).collect();
+                {
+                    let mut c = co.borrow_mut();
+                    let held = c.held_count(0);
+                    if held == 0 {
+                        std::mem::forget(rb);
+                        break;
+                    }
+                    c.complete_held(0, held - 1, &frame, frame.len() as u32);
+                }
+                // SAFETY: same buffer as passed to receive_begin.
+                match unsafe { n.receive_complete(tok, &mut rb) } {
+                    Ok((h, l)) => {
+                        if h != want || h + l != total {
+                            push(v, "net-header-size", format!("receive_complete of a {}-byte completion (round {}) = (header {}, packet {}), expected a {}-byte header (VERSION_1 negotiated = {})", total, round, h, l, want, want == 12));
+                        }
+                    }
+                    Err(_) => {
+                        // Shorter than the negotiated header: refusing it is fine.
+                        if total >= want {
+                            push(v, "net-receive", format!("receive_complete of a {}-byte completion failed although it holds a whole {}-byte header", total, want));
+                        }
+                        std::mem::forget(rb);
+                        break;
+                    }
+                }
+            }
         }
         AnyDriver::NetBuf(n) => {
             let mut tx = n.new_tx_buffer(4);
